@@ -134,6 +134,14 @@ def eval_versioned(body, path, cells, bumps):
                     args.append(('unknown',))
             res = ('call', t.callee_res() or '?', tuple(args))
             ev = ('call', t, args, res, dict(versions))
+            # compound assignment through the operator traits (`total += *count` with a reference operand is a call, not a binary operation)
+            _cn = (t.callee_res() or '').rsplit('::', 1)[-1]
+            if _cn in ('add_assign', 'sub_assign', 'mul_assign') and len(args) == 2:
+                from .sym import core as _core
+                _r = _core(args[0])
+                if _r[0] == 'var' and len(_r) > 2 and isinstance(_r[2], int):
+                    _cur = pe.env.get(_r[2], ('var', _r[1], _r[2]))
+                    pe.env[_r[2]] = ('bin', {'add_assign': 'Add', 'sub_assign': 'Sub', 'mul_assign': 'Mul'}[_cn], _cur, args[1])
             pe.events.append(ev)
             bump(ev)
             if t.dest is not None and not t.dest.proj:
